@@ -13,6 +13,8 @@ verus! {
 //@include prelude/enum_count.rs
 //@include C13/inc/dbscan_defs.rs
 //@include C13/inc/fit_defs.rs
+//@include C13/inc/conn_defs.rs
+//@include C13/inc/unique_defs.rs
 
 // C13 (part 2): the labelling computed by DBSCAN::fit satisfies the definition of density-based clustering.
 // Text of `fit` extracted verbatim; `row_iter(x).enumerate()` / `.collect()` go through the X7 stand-in (prelude/row_iter.rs);
@@ -90,22 +92,32 @@ impl<T: RealNumber, D: Distance<Vec<T>, T>> DBSCAN<T, D> {
                 // the model is well-formed for predict and searches the training rows with the same metric and radius
                 &&& m.wf() && algo_for(g, &m.knn_algorithm) && m.eps == parameters.eps //# fit-model-well-formed
                 &&& y.len() == g.n()
-                &&& forall|q: int| 0 <= q < g.n() ==> (#[trigger] y[q] == -1 || 0 <= y[q] < k) //# fit-labels-noise-or-cluster
+                // every label is noise (-1) or a cluster number in [0, num_classes); every cluster number is used
+                &&& g.labels_ok(y, k) //# fit-labels-noise-or-cluster
                 &&& all_used(y, k) //# fit-labels-gap-free
-                &&& forall|q: int| 0 <= q < g.n() && g.core(q) ==> #[trigger] y[q] >= 0 //# fit-core-points-clustered
-                &&& forall|q: int, j: int| 0 <= q < g.n() && 0 <= j < g.n() && g.core(q) && g.core(j) && #[trigger] g.nb(q, j) ==> y[q] == y[j] //# fit-adjacent-cores-same-label
-                &&& forall|path: Seq<int>| #[trigger] g.core_path(path) ==> y[path.first()] == y[path.last()] //# fit-density-connected-cores-same-label
-                &&& forall|q: int| 0 <= q < g.n() && !g.core(q) && g.has_core_nb(q) ==> g.core_nb_labelled(y, q, #[trigger] y[q] as int) //# fit-border-takes-label-of-a-core-neighbour
-                &&& forall|q: int| 0 <= q < g.n() && #[trigger] y[q] == -1 ==> !g.core(q) && !g.has_core_nb(q) //# fit-noise-is-not-density-reachable
-                &&& forall|q: int| 0 <= q < g.n() && !g.core(q) && !g.has_core_nb(q) ==> #[trigger] y[q] == -1 //# fit-remaining-points-are-noise
+                // every core point belongs to a cluster
+                &&& g.cores_clustered(y) //# fit-core-points-clustered
+                // two core points carry the same label exactly when they are density-connected
+                &&& g.adjacent_cores_agree(y) //# fit-adjacent-cores-same-label
+                &&& g.connected_cores_agree(y) //# fit-density-connected-cores-same-label
+                &&& g.same_label_connected(y) //# fit-same-label-cores-density-connected
+                // clusters are numbered in the order of their first core point
+                &&& g.numbered_by_first_core(y, k) //# fit-clusters-numbered-by-first-core-point
+                // a non-core point within eps of a core point carries the label of one such core point
+                &&& g.border_takes_core_label(y) //# fit-border-takes-label-of-a-core-neighbour
+                // all remaining points, and only they, are noise
+                &&& g.noise_unreachable(y) //# fit-noise-is-not-density-reachable
+                &&& g.unreachable_noise(y) //# fit-remaining-points-are-noise
             }),
 //@enter
         proof { T::ops_total(); }
         let ghost g = problem(x, parameters);
 //@before let algo = parameters
+        let ghost mut seeds: Seq<int> = Seq::<int>::empty();   // seeds[c]: the point cluster c was grown from
         proof {
             assert(y@.len() == g.n());
             g.lemma_init(y@);
+            g.lemma_conn_init(y@);
         }
 //@loop 1
             invariant
@@ -115,8 +127,9 @@ impl<T: RealNumber, D: Distance<Vec<T>, T>> DBSCAN<T, D> {
                 queued == -2, outlier == -1, undefined == -3,
                 VERUS_ghost_iter.seq().len() == n,
                 forall|q: int| 0 <= q < n ==> (#[trigger] VERUS_ghost_iter.seq()[q]).0 == q && VERUS_ghost_iter.seq()[q].1@ == g.rows[q],
-                0 <= k,
+                0 <= k <= VERUS_ghost_iter.index@,
                 g.inv_outer(y@, VERUS_ghost_iter.index@ as int, k as int), //# inv-between-expansions
+                g.conn_ok(y@, seeds) && seeds.len() == k, //# inv-clustered-cores-connected-to-seed
 //@before if y[i] == undefined {
             proof {
                 assert((i, e) == VERUS_ghost_iter.seq()[VERUS_ghost_iter.index@ as int]);
@@ -127,21 +140,29 @@ impl<T: RealNumber, D: Distance<Vec<T>, T>> DBSCAN<T, D> {
                 let ghost nb0 = neighbors@;
                 proof {
                     lemma_answer(g, &algo, i as int, e@, nb0);
-                    if nb0.len() < g.ms { g.lemma_outlier(y@, i as int, k as int); }
-                    else { g.lemma_seed(y@, i as int, k as int, idxs(nb0)); }
+                    if nb0.len() < g.ms {
+                        g.lemma_outlier(y@, i as int, k as int);
+                        g.lemma_conn_other(y@, seeds, i as int, -1i16);
+                    } else {
+                        g.lemma_seed(y@, i as int, k as int, idxs(nb0));
+                        g.lemma_conn_seed(y@, seeds, i as int, k as int);
+                        seeds = seeds.push(i as int);
+                    }
                 }
 //@loop 2
                         invariant
                             g.eps == parameters.eps, g.ms == parameters.min_samples as int, g.ms >= 1,
-                            n == g.n(), y@.len() == n, i < n, algo_for(g, &algo),
+                            n == g.n(), y@.len() == n, i < n, 0 <= k <= i, n <= i16::MAX, algo_for(g, &algo),
                             queued == -2, outlier == -1, undefined == -3,
                             neighbors@ == nb0, refs_ok(g, nb0),
                             g.inv_exp(y@, idxs(nb0), i as int, k as int, i as int, idxs(nb0), j as int), //# inv-seed-neighbours-marked
+                            g.conn_ok(y@, seeds) && seeds.len() == k + 1,
 //@before if y[neighbors[j].0] == undefined {
                         proof {
                             assert(idxs(nb0)[j as int] == neighbors@[j as int].0);
                             assert(on(idxs(nb0), idxs(nb0)[j as int]));
                             g.lemma_step(y@, idxs(nb0), i as int, k as int, i as int, idxs(nb0), j as int, false);
+                            if y@[idxs(nb0)[j as int]] == -3 { g.lemma_conn_other(y@, seeds, idxs(nb0)[j as int], -2i16); }
                         }
 //@before while !neighbors.is_empty() {
                     let ghost mut p: int = i as int;
@@ -149,10 +170,11 @@ impl<T: RealNumber, D: Distance<Vec<T>, T>> DBSCAN<T, D> {
 //@loop 3
                         invariant
                             g.eps == parameters.eps, g.ms == parameters.min_samples as int, g.ms >= 1,
-                            n == g.n(), y@.len() == n, i < n, algo_for(g, &algo),
+                            n == g.n(), y@.len() == n, i < n, 0 <= k <= i, n <= i16::MAX, algo_for(g, &algo),
                             queued == -2, outlier == -1, undefined == -3,
                             refs_ok(g, neighbors@),
                             g.inv_exp(y@, idxs(neighbors@), i as int, k as int, p, pl, pl.len() as int), //# inv-cluster-expansion
+                            g.conn_ok(y@, seeds) && seeds.len() == k + 1, //# inv-clustered-cores-connected-to-seed
                             // once the stack is empty, cluster k is complete
                             neighbors@.len() == 0 ==> g.inv_outer(y@, i as int + 1, k as int + 1), //# inv-empty-stack-means-cluster-complete
                         decreases unlabelled(y@, n as int), neighbors.len()
@@ -172,13 +194,15 @@ impl<T: RealNumber, D: Distance<Vec<T>, T>> DBSCAN<T, D> {
                             assert(neighbor == nbs_pre[nbs_pre.len() - 1]);
                             assert(st1 =~= st_pre.drop_last());
                             assert(index == st_pre.last());
-                            assert(0 <= st_pre[st_pre.len() - 1] < n);
+                            assert(0 <= nbs_pre[nbs_pre.len() - 1].0 < n);
+                            if y_pre[index as int] == -1 { g.lemma_exp_outlier_not_core(y_pre, st_pre, i as int, k as int, -1, Seq::<int>::empty(), 0, index as int); }
                             if y_pre[index as int] >= 0 {
                                 g.lemma_pop_labelled(y_pre, st_pre, i as int, k as int);
                                 if st1.len() == 0 { g.lemma_finish(y_pre, i as int, k as int); }
                             }
                             if y_pre[index as int] == -1 {
                                 g.lemma_pop_join(y_pre, st_pre, i as int, k as int);
+                                g.lemma_conn_other(y_pre, seeds, index as int, k);
                                 lemma_unl_update(y_pre, index as int, k, n as int);
                                 lemma_unl_bound(y_pre.update(index as int, k), n as int);
                                 if st1.len() == 0 { g.lemma_finish(y_pre.update(index as int, k), i as int, k as int); }
@@ -197,23 +221,26 @@ impl<T: RealNumber, D: Distance<Vec<T>, T>> DBSCAN<T, D> {
                                 lemma_answer(g, &algo, index as int, (*neighbor.2)@, secondary_neighbors@);
                                 if secondary_neighbors@.len() >= g.ms {
                                     g.lemma_pop_core(y_pre, st_pre, i as int, k as int, idxs(secondary_neighbors@));
+                                    g.lemma_conn_pop_core(y_pre, st_pre, seeds, i as int, k as int);
                                     p = index as int;
                                     pl = idxs(secondary_neighbors@);
                                 } else {
                                     g.lemma_pop_join(y_pre, st_pre, i as int, k as int);
+                                    g.lemma_conn_other(y_pre, seeds, index as int, k);
                                     if st1.len() == 0 { g.lemma_finish(y_k, i as int, k as int); }
                                 }
                             }
 //@loop 4
                                     invariant
                                         g.eps == parameters.eps, g.ms == parameters.min_samples as int, g.ms >= 1,
-                                        n == g.n(), y@.len() == n, i < n, algo_for(g, &algo),
+                                        n == g.n(), y@.len() == n, i < n, 0 <= k <= i, n <= i16::MAX, algo_for(g, &algo),
                                         queued == -2, outlier == -1, undefined == -3,
                                         refs_ok(g, neighbors@), refs_ok(g, secondary_neighbors@),
                                         p == index, pl == idxs(secondary_neighbors@),
                                         unlabelled(y@, n as int) == unlabelled(y_k, n as int),
                                         g.inv_exp(y@, idxs(neighbors@), i as int, k as int, p, pl, j as int), //# inv-neighbours-of-new-core-point-marked
                                         g.ms >= 1, secondary_neighbors@.len() >= g.ms,
+                                        g.conn_ok(y@, seeds) && seeds.len() == k + 1,
                                         (j == secondary_neighbors@.len() && neighbors@.len() == 0) ==> g.inv_outer(y@, i as int + 1, k as int + 1),
 //@before let label = y[secondary_neighbors[j].0];
                                     let ghost y_b = y@;
@@ -229,7 +256,7 @@ impl<T: RealNumber, D: Distance<Vec<T>, T>> DBSCAN<T, D> {
                                                 g.lemma_finish(y_b, i as int, k as int);
                                             }
                                         }
-                                        if y_b[jj] == -3 { lemma_unl_update(y_b, jj, -2i16, n as int); }
+                                        if y_b[jj] == -3 { lemma_unl_update(y_b, jj, -2i16, n as int); g.lemma_conn_other(y_b, seeds, jj, -2i16); }
                                     }
 //@after neighbors.push(secondary_neighbors[j]);
                                         proof {
@@ -238,7 +265,12 @@ impl<T: RealNumber, D: Distance<Vec<T>, T>> DBSCAN<T, D> {
                                         }
 //@before Ok(DBSCAN {
         proof {
+            g.lemma_outer_basic(y@, n as int, k as int);
             g.lemma_final(y@, k as int);
+            g.lemma_conn_final(y@, seeds);
+            assert forall|c: int| 0 <= c < k implies #[trigger] g.has_first_core(y@, c) by {
+                assert(g.first_core_of(y@, seeds[c], c));
+            }
         }
 //@end
 }
